@@ -97,7 +97,8 @@ impl<'n, S: Syntax, D> Iterator for SyntaxNodeChildren<'n, S, D> {
 
     #[inline(always)]
     fn size_hint(&self) -> (usize, Option<usize>) {
-        self.inner.size_hint()
+        let remaining = self.len();
+        (remaining, Some(remaining))
     }
 
     #[inline(always)]
@@ -105,14 +106,19 @@ impl<'n, S: Syntax, D> Iterator for SyntaxNodeChildren<'n, S, D> {
     where
         Self: Sized,
     {
-        self.inner.count()
+        self.len()
     }
 }
 
 impl<S: Syntax, D> ExactSizeIterator for SyntaxNodeChildren<'_, S, D> {
     #[inline(always)]
     fn len(&self) -> usize {
-        self.inner.len()
+        // Tokens are skipped by `next`, so only the remaining children which are nodes count.
+        self.inner
+            .green
+            .clone()
+            .filter(|element| element.as_node().is_some())
+            .count()
     }
 }
 impl<S: Syntax, D> FusedIterator for SyntaxNodeChildren<'_, S, D> {}
